@@ -785,7 +785,7 @@ class C09(WMode):
         if kind == "inject":
             i = rng.randrange(len(w.nodes))
             d, wd = w.cfg["depth"], w.cfg["width"]
-            cells = [[rng.randrange(d), rng.randrange(wd), near_vals(rng, w.fam, w.cfg)] for _ in range(rng.randrange(1, 2 * d * wd + 1))]
+            cells = [[rng.randrange(d), rng.randrange(wd), near_vals(rng, w.fam, w.cfg)] for _ in range(rng.randrange(1, min(2 * d * wd, 256) + 1))]
             ev = {"op": "inject", "node": i, "cells": cells}
             if rng.random() < 0.3:
                 ev["nrec"] = rng.choice([0, 1, 5, rng.getrandbits(40)])
@@ -805,6 +805,16 @@ class C09(WMode):
                     {"op": "send", "src": 1, "dst": 0, "kind": "live", "id": 10 ** 6}, {"op": "deliver", "id": 10 ** 6, "via": 0},
                     {"op": "inject", "node": 0, "grid": "zero"}, {"op": "inject", "node": 1, "grid": "seq"},
                     {"op": "send", "src": 1, "dst": 0, "kind": "file", "id": 10 ** 6 + 1}, {"op": "deliver", "id": 10 ** 6 + 1, "via": 0}]
+        thr = w.cfg.get("thr")
+        if sub != "random_pairs" and thr is not None and thr["dim"] in ("cells", "table_bytes") and len(w.nodes) >= 2 \
+                and w.cfg["width"] * w.cfg["depth"] > 4096:
+            # a shape sized around a harvested constant: one merge of two fully random tables
+            # looks at every counter of that shape
+            g = rng.getrandbits(31)
+            return [{"op": "inject", "node": 0, "grid": "rand", "gseed": g, "gdist": rng.choice(["log", "uniform", "low"])},
+                    {"op": "inject", "node": 1, "grid": "rand", "gseed": g + 1, "gdist": rng.choice(["log", "uniform", "low"])},
+                    {"op": "send", "src": 1, "dst": 0, "kind": "live", "id": 10 ** 6 + 7},
+                    {"op": "deliver", "id": 10 ** 6 + 7, "via": 0}]
         if sub == "random_pairs":
             g = w.cfg["gseed"]
             evs = []
